@@ -35,9 +35,9 @@ Gather(reg, prefix, common) ==
 (* ---- properties of the function itself (checked by TLC over the generated configurations) ---- *)
 StrictlyIncreasing(g) == \A i \in 1..(Len(g) - 1) : SeqLt(g[i].name, g[i + 1].name)
 \* every sample of every registered collector exactly once
-Complete(reg, g) == \A c \in reg : \A s \in c.samples :
+Complete(reg, prefix, g) == \A c \in reg : \A s \in c.samples :
     Cardinality({<<i, j>> \in UNION {{<<i, j>> : j \in DOMAIN g[i].samples} : i \in DOMAIN g} :
-                   g[i].samples[j].labels = LabelSeq(s.labels) /\ g[i].samples[j].v = s.v}) = 1
+                   g[i].name = Prefixed(prefix, c.name) /\ g[i].samples[j].labels = LabelSeq(s.labels) /\ g[i].samples[j].v = s.v}) = 1
 \* C09: all names that reach a sample are valid and pairwise distinct
 NamesValid(g) == \A i \in DOMAIN g : /\ ValidMetricName(g[i].name)
                                      /\ \A j \in DOMAIN g[i].samples :
